@@ -22,7 +22,7 @@ PROPS = {
             "diagnostics before / after formatting are the real server's (observed, not modelled)",
             "reference edit applier: Spec/FormatSpec.v apply_edits (single-line edits, UTF-16 columns, CR before LF belongs to the line ending); the harness's byte-offset applier is compared with it on every case",
         ],
-        "assumptions": ["exponents of generated amounts are small (huge exponents are C06's finding)", "the included file is formats.journal next to the root journal; other workspace shapes are C10/C18's subject"],
+        "assumptions": ["exponents of generated amounts are small (exponents beyond +-255 are syntax errors since the C06 repair)", "the included file is formats.journal next to the root journal; other workspace shapes are C10/C18's subject"],
         "explanation": "theorems on the formatter model (Props/C04.v); tie: model edits = real edits on both rounds, reference applier = harness applier, parse errors; oracle: same meaning after re-parsing, same diagnostics, frame of non-posting lines, unread text kept",
     },
     "C05": {
@@ -150,7 +150,7 @@ PROPS = {
             "the model's input is the AST the real parser produced for the open document and the declaration lists the harness reads (with the real parser) from the workspace root's tree; strings.ToLower restricted to ASCII",
         ],
         "assumptions": ["the workspace root journal is main.journal; its tree is main + sub (the harness's directory shape)"],
-        "explanation": "C18_account_rule, C18_commodity_rule, C18_commodity_once, C18_settings for all inputs; C18_scope_refuted; tie+oracle through Initialize(options) / didOpen / publishDiagnostics on generated 3-file directories x 8 settings x root/no root",
+        "explanation": "C18_account_rule, C18_commodity_rule, C18_commodity_once, C18_settings for all inputs; C18_scope_matters (witness); tie+oracle through Initialize(options) / didOpen / publishDiagnostics on generated 3-file directories x 8 settings x root/no root",
     },
     "C02": {
         "n": {"quick": 2500, "thorough": 60000},
@@ -187,8 +187,8 @@ PROPS = {
         "n": {"quick": 2500, "thorough": 30000},
         "shards": 16,
         "trusted": ["same graph-level model as C10; edits are write+InvalidateFile as the property quantifies"],
-        "assumptions": ["default depth limit (the count-based limit interacts with unmarked cache hits; C10 covers the limit)"],
-        "explanation": "C11 refuted (cache hit truncates) as a theorem; partial theorems for ClearCache and invalidate in every state; tie+oracle: after every load of a random operation sequence the shared loader's result is compared with a fresh loader's on the same files",
+        "assumptions": ["default depth limit (C10 covers the limit)"],
+        "explanation": "C11_holds: the full statement for all operation sequences on the repaired loader (coherent-cache invariant, cache independence of one load); theorems for ClearCache and invalidate in every state; tie+oracle: after every load of a random operation sequence the shared loader's result is compared with a fresh loader's on the same files",
     },
     "C13": {
         "n": {"quick": 600, "thorough": 8000},
@@ -212,7 +212,7 @@ PROPS = {
             "a conforming client sends valid UTF-8 with LF or CRLF line ends (no lone CR), start <= end, and no position inside a surrogate pair (wf_history); other histories are only checked for the tie and for answer freshness",
             "background analyses are allowed to finish after every notification (orders of completion are C13's subject)",
         ],
-        "explanation": "C01_refuted (+2 witnesses), C01_partial for all histories outside the two refuted classes, C01_positions; correspondence on generated histories decoded from wire JSON; freshness of 8 handlers' answers compared with a fresh server on the final text",
+        "explanation": "C01_refuted (1 witness: empty range at 0:0), C01_partial for all histories outside that class (CRLF included), C01_positions; correspondence on generated histories decoded from wire JSON; freshness of 8 handlers' answers compared with a fresh server on the final text",
     },
     "C19": {
         "n": {"quick": 3000, "thorough": 60000},
